@@ -297,3 +297,17 @@ Proof.
   - intros Hq. exact (mod_arm_final ir dst m a b q r R0 R1 Na Hq Hm Hr Hr10 Ht).
 Qed.
 Print Assumptions C02_div_mod_final_state.
+
+(* arithmetic right shifts at every size (the value shifted is the source taken at the type of operand 0, as
+   C02_shift_results describes), register destination: N and Z from the result at the destination size, C = V = 0 *)
+Theorem C02_arithmetic_shift_final_state :
+  forall ir m cnt v r,
+    iopcode ir = 196 \/ iopcode ir = 198 \/ iopcode ir = 199 ->
+    read_op ir 0 m = Ok cnt m -> read_op ir 1 m = Ok v m ->
+    omode (get_op ir 2) = MRegister -> oreg (get_op ir 2) = Some r -> 0 <= r <= 10 -> otype (get_op ir 2) <> DNone ->
+    let t := otype (get_op ir 2) in
+    let res := ars_value (data_type (op0 ir)) v (Z.land cnt 31) in
+    exists m', exec ir m = Ok (ilen ir) m'
+      /\ word_outcome m m' r res (Z.testbit res (sign_bit t)) (trunc_to t res =? 0) false false.
+Proof. exact ars_final. Qed.
+Print Assumptions C02_arithmetic_shift_final_state.
